@@ -353,7 +353,7 @@ pub struct C12;
 
 const DIGIT_WORDS: &[&str] = &[
     "1", "2", "3", "4", "5", "6", "7", "8", "9", "10", "11", "12", "13", "15", "19", "20", "21", "30", "40", "50",
-    "60", "70", "71", "80", "90", "99", "100", "101", "200", "300", "500", "900", "1000", "0", "00", "000", "",
+    "60", "70", "71", "80", "90", "99", "100", "101", "200", "300", "500", "900", "1000", "0", "0", "0", "0", "00", "000", "",
     "05", "007", "1234567", "1000000", "120", "4000", "25000", "1000000000",
 ];
 
@@ -389,14 +389,14 @@ impl Check for C12 {
     fn generate(&self, rng: &mut Rng) -> Case {
         // swarm: per-run operation weights and refusal-injection rate
         let mut w = [0u32; 9];
-        let base = [30u32, 12, 8, 5, 25, 3, 3, 3, 3];
+        let base = [30u32, 12, 8, 5, 25, 1, 4, 3, 3];
         for (i, b) in base.iter().enumerate() {
             w[i] = if rng.chance(1, 6) { 0 } else { 1 + rng.below(*b as usize * 2) as u32 };
         }
         if w.iter().all(|&x| x == 0) {
             w[0] = 1;
         }
-        let refusal_pct = rng.range(10, 40) as u32;
+        let refusal_pct = rng.range(5, 30) as u32;
         let n = rng.range(1, 40);
         let mut model = Model::default();
         let mut ops = Vec::with_capacity(n);
@@ -415,7 +415,7 @@ impl Check for C12 {
                         1 => Op::PutDigitAt((b'0' + rng.below(10) as u8) as char, rng.below(model.l() + 2)),
                         2 => Op::Shift(rng.range(1, model.l().max(1) + 1).min(14)),
                         _ => {
-                            if !model.frozen && rng.chance(1, 3) {
+                            if !model.frozen && rng.chance(1, 8) {
                                 // freeze now, the following guarded mutators will be refused
                                 Op::Freeze
                             } else {
